@@ -36,7 +36,7 @@ TRUSTED_BASE = [
     "A-STR: strings are finite sequences of code points; isspace/isalpha are uninterpreted outside ASCII",
     "A-LIB: assumed contracts of stdlib functions (str.find/rfind/count/startswith/strip, bisect_right, "
     "re, unicodedata.normalize, os.path, ChainMap); validated on samples by pyvc.selftest, not proved",
-    "A-LOG: logger.* and pylatexenc_deprecated_* calls are no-ops whose arguments are not evaluated",
+    "A-LOG: logger.* and pylatexenc_deprecated_* calls are no-ops (records are not formatted); their argument expressions ARE evaluated, so an exception raised while building a log argument is seen",
     "A-DYN: no monkey-patching or user subclass overriding the verified methods",
     "A-SMT: z3 5.1 / cvc5 1.0.3 are correct when they answer unsat",
 ]
